@@ -70,8 +70,9 @@ class Workload:
     """Generates call steps valid on Client, PooledClient and HashClient alike."""
 
     def __init__(self, rng, stack, keys, methods=None, big=None, noreply_mix=True,
-                 numeric_keys=None):
+                 numeric_keys=None, huge=True):
         self.rng = rng
+        self.huge = huge
         self.stack = stack
         self.keys = keys
         self.big = big
@@ -88,12 +89,14 @@ class Workload:
         if not self.noreply_mix:
             return
         r = self.rng.random()
-        if r < 0.33:
+        if r < 0.31:
             k["noreply"] = True
-        elif r < 0.66:
+        elif r < 0.62:
             k["noreply"] = False
-        elif r < 0.76:
+        elif r < 0.72:
             k["noreply"] = None      # explicit None = "use the default"
+        elif r < 0.76:
+            k["noreply"] = self.rng.choice([1, 0])     # truthy / falsy, but not the bool singletons
 
     def key(self):
         return self.rng.choice(self.keys)
@@ -103,6 +106,9 @@ class Workload:
         return self.rng.sample(self.keys, n)
 
     def value(self, key=None):
+        if self.huge and self.rng.random() < 0.01:
+            # larger than memcached's default item limit (1 MiB): the server answers SERVER_ERROR object too large
+            return bytes([self.rng.randrange(97, 123)]) * ((1 << 20) + self.rng.choice([1, 2, 4096]))
         return pick_value(self.rng, numeric=(key in self.numeric and self.rng.random() < 0.8),
                           big=self.big)
 
@@ -191,13 +197,14 @@ def applicable_faults(kind):
     if kind == "socket":
         return [{"kind": "nosock", "err": "eafnosupport"}, {"kind": "nosock", "err": "emfile"}]
     if kind == "setsockopt":
-        return [{"kind": "optfail", "err": "einval"}]
+        return [{"kind": "optfail", "err": "einval"}, {"kind": "optfail", "err": "typeerror"}]
     if kind == "settimeout":
-        return [{"kind": "optfail", "err": "einval"}]
+        return [{"kind": "optfail", "err": "einval"}, {"kind": "optfail", "err": "valueerror"}]
     if kind == "wrap":
         return [{"kind": "tlsfail", "err": "ssl"}]
     if kind == "connect":
-        return [{"kind": "refuse"}, {"kind": "connect_timeout"}, {"kind": "refuse", "err": "unreach"}]
+        return [{"kind": "refuse"}, {"kind": "connect_timeout"}, {"kind": "refuse", "err": "unreach"},
+                {"kind": "refuse", "err": "overflow"}]
     if kind == "sendall":
         out = []
         for k in SEND_FAULTS:
